@@ -54,7 +54,7 @@ RC == RCOf(ri)
 A == AOf(ri)
 
 FreshAux == [phase |-> "init", sumN |-> 0, enl |-> FALSE, ckIters |-> <<>>, gotFinal |-> FALSE]
-FreshGaux == [hasRef |-> FALSE, ref |-> [none |-> TRUE], lastBytes |-> 0, refLogz |-> 0]
+FreshGaux == [hasRef |-> FALSE, ref |-> [none |-> TRUE], lastBytes |-> 0, refLogz |-> 0, fileIter |-> -1]
 
 NextKBeta(i) ==
   LET idx == {j \in (i + 1)..Len(Evs) : Evs[j].t = "kbegin"} IN
@@ -63,7 +63,7 @@ NextKBeta(i) ==
 \* checkpoint block not observed as an event: take the spec's step silently
 AdvanceCk(t) ==
   IF t.pc = "ckpt" THEN [st |-> DoExit(DoCkpt(t, A, FALSE), A, One),
-                         v |-> V(~Due(t, A, FALSE), "CadenceExact")]
+                         v |-> V((~RC.ckpt_events) \/ ~Due(t, A, FALSE), "CadenceExact")]
   ELSE [st |-> t, v |-> {}]
 
 PayloadOK(t, ev) ==
@@ -93,11 +93,27 @@ Process(ev, i) ==
                      rng |-> 0, minStep |-> s.minStep, hist |-> HistFromPayload(ev.hbetas, ev.hpops)]
              t1 == DoReinit(DoRestore(A, src), A, One)
          IN [s |-> t1, aux |-> [aux EXCEPT !.phase = "loop"], gaux |-> gaux, v |-> {}]
+    [] ev.t = "like" /\ G.kind = "calls_group" ->
+         \* importance / MCMC samplers: only the call-site monitors apply
+         [s |-> [s EXCEPT !.nlike = @ + ev.n], aux |-> [aux EXCEPT !.sumN = @ + ev.n], gaux |-> gaux,
+          v |-> V(ev.has_prior /\ ev.prior_ok, "PriorBeforeLikelihood")
+                \cup V(ev.width = Cfg.width, "PrecisionKept")]
+    [] ev.t = "result" ->
+         LET cmp == gaux.hasRef /\ R.role = "repeat" IN
+         [s |-> s, aux |-> [aux EXCEPT !.gotFinal = TRUE],
+          gaux |-> IF R.role = "reference" THEN [gaux EXCEPT !.hasRef = TRUE, !.ref = ev] ELSE gaux,
+          v |-> V(ev.nlike < 0 \/ ev.nlike = aux.sumN, "CountExact")
+                \cup V(SeqAll(ev.coh, LAMBDA c : c), "CachedCoherent")
+                \cup V(ev.size_ok, "InitialPopulation")
+                \cup V(ev.width_ok, "PrecisionKept")
+                \cup V(cmp => ev.ids = gaux.ref.ids, "RunDeterministic")]
     [] ev.t = "like" ->
          LET common == V(ev.has_prior /\ ev.prior_ok, "PriorBeforeLikelihood")
                        \cup V(ev.width = Cfg.width, "PrecisionKept")
              a1 == [aux EXCEPT !.sumN = @ + ev.n]
-         IN IF ev.inker
+         IN IF ev.faulted     \* the injected exception left sample() from inside this call
+              THEN [s |-> [s EXCEPT !.nlike = @ + ev.n], aux |-> a1, gaux |-> gaux, v |-> common]
+            ELSE IF ev.inker
               THEN [s |-> [s EXCEPT !.nlike = @ + ev.n], aux |-> a1, gaux |-> gaux,
                     v |-> common \cup V(aux.phase = "inker", "conf_like_in_kernel")]
             ELSE IF aux.phase = "init"
@@ -128,6 +144,9 @@ Process(ev, i) ==
     [] ev.t = "kinit" ->
          [s |-> s, aux |-> aux, gaux |-> gaux,
           v |-> V(Cfg.rng_route = "none" \/ ev.rng_user, "UserRngUsed")]
+    [] ev.t \in {"kbegin", "kend"} /\ G.kind = "calls_group" ->
+         [s |-> s, aux |-> aux, gaux |-> gaux,
+          v |-> IF ev.t = "kbegin" THEN V(Cfg.rng_route = "none" \/ ev.rng_user, "UserRngUsed") ELSE {}]
     [] ev.t = "kbegin" ->
          LET adv == AdvanceCk(s)
              t0 == adv.st
@@ -166,10 +185,15 @@ Process(ev, i) ==
                       [s |-> t0, aux |-> aux, gaux |-> [gaux EXCEPT !.lastBytes = ev.bytes],
                        v |-> {"CadenceExact"}]
     [] ev.t = "file" ->
-         [s |-> s, aux |-> aux, gaux |-> gaux,
-          v |-> V(gaux.lastBytes = 0 \/ ev.blob = gaux.lastBytes, "FileHoldsLatest")
+         LET t0 == AdvanceCk(s).st
+             expIter == IF Len(t0.ckpts) > 0 THEN LastOf(t0.ckpts)[1] ELSE gaux.fileIter
+         IN [s |-> s, aux |-> aux, gaux |-> [gaux EXCEPT !.fileIter = ev.blob_iter],
+             v |-> V(gaux.lastBytes = 0 \/ ev.blob = gaux.lastBytes, "FileHoldsLatest")
+                \cup V(ev.last_bytes = 0 \/ ev.blob = ev.last_bytes, "FileHoldsLatest")
                 \cup V(ev.blob = 0 \/ ev.loadable, "Loadable")
-                \cup V((~Cfg.expect_cfg) \/ (ev.has_cfg /\ ev.has_flow), "ConfigAndFlowFirst")]
+                \cup V((~Cfg.expect_cfg) \/ (ev.has_cfg /\ ev.has_flow), "ConfigAndFlowFirst")
+                \* the library's own file callback: the file changes exactly when a checkpoint is due
+                \cup V(RC.ckpt_events \/ (~RC.has_path) \/ ev.blob_iter = expIter, "CadenceExact")]
     [] ev.t = "partial" ->
          [s |-> s, aux |-> aux, gaux |-> gaux,
           v |-> V(\A k \in 1..Len(ev.betas) : ev.betas[k] > (IF k = 1 THEN G.zero ELSE ev.betas[k - 1]),
@@ -235,8 +259,8 @@ Process(ev, i) ==
                \cup V(ev.nlike = aux.sumN, "CountExact")
                \cup V(ev.nlike = t3.nlike, "conf_count_model")
                \* ---- C12
-               \cup V(RC.every = 0 \/ \A k \in (t3.startIter + 1)..T : (k % RC.every = 0) <=> (k \in regular), "CadenceExact")
-               \cup V(RC.every = 0 \/ sawForced, "CadenceExact_final")
+               \cup V((~RC.ckpt_events) \/ RC.every = 0 \/ \A k \in (t3.startIter + 1)..T : (k % RC.every = 0) <=> (k \in regular), "CadenceExact")
+               \cup V((~RC.ckpt_events) \/ RC.every = 0 \/ sawForced, "CadenceExact_final")
                \* ---- C11 / C20
                \cup V(cmp => /\ ev.betas = ref.betas /\ ev.pops = ref.pops /\ ev.logz = ref.logz
                              /\ ev.logzerr = ref.logzerr /\ ev.res_pop = ref.res_pop
@@ -246,6 +270,7 @@ Process(ev, i) ==
 
 RunEnd ==
      V(R.status # "raised", "NeverRaises")
+  \cup V(~(R.role = "resumed" /\ R.status = "raised"), "ResumeFromFileWorks")
   \cup V(R.status # "ok" \/ aux.gotFinal, "conf_no_final")
   \cup V(Cfg.rng_route = "none" \/ R.orng_created = 0, "UserRngUsed")
 
@@ -272,7 +297,10 @@ NextRun ==
   /\ viol' = viol \cup {<<ri, n>> : n \in RunEnd}
   /\ ri' = ri + 1 /\ l' = 1
   /\ s' = Fresh(AOf(ri + 1)) /\ aux' = FreshAux
-  /\ UNCHANGED <<gi, gaux, args, unused>>
+  \* only a resumed run continues on the file of the run before it
+  /\ gaux' = IF ri + 1 <= Len(G.runs) /\ G.runs[ri + 1].role = "resumed" THEN gaux
+             ELSE [gaux EXCEPT !.fileIter = -1, !.lastBytes = 0]
+  /\ UNCHANGED <<gi, args, unused>>
 
 Verdict ==
   /\ ri = Len(G.runs) + 1
